@@ -665,10 +665,19 @@ def p4(e: Engine, rep: Report):
     rep.functions.add(where)
 
     def container(n):
+        v = n.ast.targets[0].value
+        if isinstance(v, ast.Name):
+            # a local alias of the list (`rcpts = envelope.recipients`)
+            o, fr = common.origin(g, v, n.frame)
+            if o is not v:
+                try:
+                    return canon(o, fr)
+                except Exception:
+                    return ast.unparse(o)
         try:
-            return canon(n.ast.targets[0].value, n.frame)
+            return canon(v, n.frame)
         except Exception:
-            return ast.unparse(n.ast.targets[0].value)
+            return ast.unparse(v)
     ws = [n for n in g.of_kind('stmt') if isinstance(n.ast, ast.Assign) and
           isinstance(n.ast.targets[0], ast.Subscript) and
           'recipients' in container(n)]
@@ -705,14 +714,51 @@ def p4(e: Engine, rep: Report):
                   'unforwarded)', loc=lp.loc(),
                   reason='rule loop entered on every path of the iteration',
                   witness=dataflow.render_path(pth) if pth else None)
-    for n in ws:
-        rep.evaluations += 2
-        st = fx.at(n) or frozenset()
+    def matched(st):
         # (a substitution count is never negative: != 0 is > 0)
-        ok = any('change' in k and (
+        return any('change' in k and (
             (p and k.startswith('0 < ')) or
             (not p and k.endswith(' == 0')) or
             (p and k.endswith(' != 0'))) for p, k in st)
+    for n in list(ws):
+        # the new value comes out of a helper that carries the rule loop:
+        # each of its returns is either under a match or hands back its
+        # parameter as it came in
+        v = n.ast.value
+        if not (isinstance(v, ast.Call) and isinstance(v.func, ast.Attribute)
+                and isinstance(v.func.value, ast.Name) and
+                v.func.value.id in ('self', 'cls') and len(v.args) == 1):
+            continue
+        rets = [r for r in g.of_kind('stmt')
+                if isinstance(r.ast, ast.Return) and
+                r.frame is not g.entry.frame and
+                r.frame.ctx.func.name == v.func.attr]
+        if not rets:
+            continue
+        ws.remove(n)
+        hf = rets[0].frame.ctx.func
+        prm = [p for p in hf.params if p not in ('self', 'cls')]
+        for r in rets:
+            rep.evaluations += 1
+            st = fx.at(r) or frozenset()
+            val = r.ast.value
+            same = isinstance(val, ast.Name) and val.id in prm and not any(
+                isinstance(x, ast.Name) and x.id == val.id and
+                isinstance(x.ctx, ast.Store) for x in walk_own(hf.node))
+            rep.check(matched(st) or same, 'P4', hf.qname,
+                      'recipient rewritten only by a matching rule',
+                      '`%s` is what %s hands back when no rule matched, and '
+                      'it is not the address as it came in (`%s` is re-bound '
+                      'in the helper): apply() writes it over the '
+                      'recipient - recipients no rule matches are changed'
+                      % (r.text(40), hf.name,
+                         ast.unparse(val) if val is not None else 'None'),
+                      loc=r.loc(), reason='under changes > 0, or the '
+                      'parameter untouched')
+    for n in ws:
+        rep.evaluations += 2
+        st = fx.at(n) or frozenset()
+        ok = matched(st)
         rep.check(ok, 'P4', where, 'recipient rewritten only by a matching '
                   'rule', 'a recipient is overwritten although the rule '
                   'made no substitution: unmatched recipients are changed',
